@@ -108,8 +108,10 @@ PEERS_TRUSTED = [
 PROPS['C15'] = {
     'level': 'proof',
     # what refreshes a peer and with which timeout; when it is removed
-    'verus': [{'unit': 'peers', 'fns': ['GenericCloud::update_peer_info', 'GenericCloud::add_new_peer', 'GenericCloud::housekeep_expiry_block', 'lemma_take_contains', 'canary_.*']}],
-    'native_search': {r'peers::GenericCloud.*': NODE_PEERS_DRV, r'kani::timing::housekeep_interval.*': NODE_PEERS_DRV},
+    'verus': [{'unit': 'peers', 'fns': ['GenericCloud::update_peer_info', 'GenericCloud::add_new_peer', 'GenericCloud::housekeep_expiry_block', 'lemma_take_contains', 'canary_.*']},
+              # "... is removed, WITH ITS ROUTES": what the expiry statements call on the table, and the lemma that carries it to unit peers
+              {'unit': 'table', 'fns': ['ClaimTable::remove_claims', 'lemma_remove_claims_iface', 'lemma_range_eq_trans']}],
+    'native_search': {r'peers::GenericCloud.*': NODE_PEERS_DRV, r'kani::timing::housekeep_interval.*': NODE_PEERS_DRV, r'table::.*': [TABLE_MODEL, NODE_PEERS_DRV]},
     'kani': {
         'files': {'src/cloud.rs': ['kani/timing.rs.in']},
         'harnesses': [
@@ -276,6 +278,7 @@ TABLE_TRUSTED = [
     'std contracts written in the unit: Vec::retain (verdict sequence), slice::Iter::position, SocketAddr ==, cmp::min; Range/Address == as field-wise/prefix equality (Address::eq proved by Kani harness address_eq_is_prefix_equality)',
     'Range::matches is used through its contract r == range_contains (proved for all inputs by Kani harness range_matches_is_prefix_match)',
 ]
+PROPS['C15']['trusted'] = PROPS['C15']['trusted'] + TABLE_TRUSTED
 PROPS['C12'] = {
     'level': 'proof',
     'verus': [{'unit': 'table', 'fns': TABLE_FNS},
@@ -425,7 +428,7 @@ PROPS['C10'] = {
 
 PROPS['C01'] = {
     'level': 'proof',
-    'level_text': 'PARTIAL - the four mechanisms of this property, as contracts on the real code (Verus): (1) InitMsg::read_from returns a message only if it carries an Ed25519 signature that is valid, under a key of the trusted list - the one selected by the salted hash in the first 8 bytes - over ALL bytes up to and including the end marker; for every byte sequence and every trusted list, with termination and memory safety. (2) InitState::handle_init, from its first statement up to the decoder call: when the decoder rejects, the error is returned with the handshake object and the buffer geometry unchanged ("without altering a handshake already in progress"). (3) the statements of GenericCloud::handle_net_message that treat a handshake datagram from an address without pending handshake: the responder object is stored only if it accepted that first message; otherwise no pending entry, no peer, nothing sent ("without creating a peer ... without any reply"); and GenericCloud::add_new_peer creates a peer entry only out of the pending handshake object of that address (consumed), never otherwise. Ed25519 and SHA-256 are uninterpreted functions (unforgeability is the cipher assumption). (4) InitState::handle_init as a whole (unit initstage): success is reported only from the stage that expects it (pong for the initiator, peng for the responder), at most once per object (a finished object never completes again, whatever is replayed to it), and only after the payload of the peer OPENED under the core of this attempt - for the initiator the core derived from the selected algorithm, the ephemeral key of this attempt and the public key of the peer. NOT decided: that two nodes become peers EXACTLY when each trusts the other (needs the whole handshake: C05), lingering / pending handshake objects receiving the datagram (PeerCrypto::handle_message is an environment function at node level), key parsing and the trusted-list construction in Crypto::new.',
+    'level_text': 'PARTIAL - the four mechanisms of this property, as contracts on the real code (Verus): (1) InitMsg::read_from returns a message only if it carries an Ed25519 signature that is valid, under a key of the trusted list - the one selected by the salted hash in the first 8 bytes - over ALL bytes up to and including the end marker; for every byte sequence and every trusted list, with termination and memory safety. (2) InitState::handle_init, from its first statement up to the decoder call: when the decoder rejects, the error is returned with the handshake object and the buffer geometry unchanged ("without altering a handshake already in progress"). (3) the statements of GenericCloud::handle_net_message that treat a handshake datagram from an address without pending handshake: the responder object is stored only if it accepted that first message; otherwise no pending entry, no peer, nothing sent ("without creating a peer ... without any reply"); and GenericCloud::add_new_peer creates a peer entry only out of the pending handshake object of that address (consumed), never otherwise. Ed25519 and SHA-256 are uninterpreted functions (unforgeability is the cipher assumption). (4) InitState::handle_init as a whole (unit initstage): success is reported only from the stage that expects it (pong for the initiator, peng for the responder), at most once per object (a finished object never completes again, whatever is replayed to it), and only after the payload of the peer OPENED under the core of this attempt - for the initiator the core derived from the selected algorithm, the ephemeral key of this attempt and the public key of the peer. NOT decided by contracts: that two nodes become peers EXACTLY when each trusts the other (needs the whole handshake: C05) - searched on every run by the bounded stand-in native/trust_matrix.rs (two and three real nodes, every trusted-key configuration, both dial directions; labelled bounded); lingering / pending handshake objects receiving the datagram (PeerCrypto::handle_message is an environment function at node level), key parsing and the trusted-list construction in Crypto::new.',
     'verus': [{'unit': 'codec', 'rlimit': 100, 'fns': ['InitMsg::read_from', 'InitState::handle_init_until_decoded', 'MsgBuffer::.*', 'lemma_cur_adv', 'canary_.*']},
               {'unit': 'cloud', 'fns': ['GenericCloud::responder_block', 'GenericCloud::handle_net_message']},
               # "accepts its payload only from a party that proved possession": before the handshake produced a core, or plain mode was
@@ -454,8 +457,8 @@ OWN_DRV = {'file': 'native/own_addresses.rs', 'attach': 'src/tests/common.rs', '
 SELF_DRV = {'file': 'native/self_connect.rs', 'attach': 'src/crypto/init.rs', 'test': 'a_node_recognises_itself_under_any_salt'}
 PROPS['C14'] = {
     'level': 'proof',
-    'level_text': 'PARTIAL - only the SAFETY half ("a node never ends up with itself as a peer ... addresses that peers list under the node\'s own identity are adopted as its own and not dialled"), as contracts on the real code (Verus): InitState::new advertises salt || SHA-256(salt || node id)[..16] (block), InitState::check_salted_node_id_hash answers exactly "is this the salted hash of my node id", and the theorem that every handshake object of a node recognises the hash of every other handshake object of the same node, whatever salts they drew - so a node that reaches itself through an address it does not know to be its own refuses the handshake; the equal-hash disjunct of the "Connected to self" test (Kani block); GenericCloud::connect_sock never dials an address the node knows to be its own (nor a peer, nor one with a pending handshake); the statements of connect_to_peers that adopt the addresses listed under the own node id (block). SHA-256 is an uninterpreted function. NOT decided: the whole first sentence of the property (a connected bootstrap graph becomes a full mesh within a bounded number of exchange intervals, NAT traversal) - liveness over multi-node histories; InitState::handle_init (whole function, unit initstage): in EVERY stage a message that carries the own salted hash, or one the self-recognition test accepts, never completes the handshake. The call site in connect_to_peers (labelled loops, HashMap iteration) is read, not proved.',
-    'verus': [{'unit': 'codec', 'rlimit': 100, 'fns': ['salted_hash_block', 'InitState::check_salted_node_id_hash', 'theorem_node_recognises_itself', 'canary_.*']},
+    'level_text': 'PARTIAL - only the SAFETY half ("a node never ends up with itself as a peer ... addresses that peers list under the node\'s own identity are adopted as its own and not dialled"), as contracts on the real code (Verus): InitState::new advertises salt || SHA-256(salt || node id)[..16] (block), InitState::check_salted_node_id_hash answers exactly "is this the salted hash of my node id", and the theorem that every handshake object of a node recognises the hash of every other handshake object of the same node, whatever salts they drew - so a node that reaches itself through an address it does not know to be its own refuses the handshake; the equal-hash disjunct of the "Connected to self" test (Kani block); GenericCloud::connect_sock never dials an address the node knows to be its own (nor a peer, nor one with a pending handshake); the statements of connect_to_peers that adopt the addresses listed under the own node id (block). SHA-256 is an uninterpreted function. NOT decided by contracts: the first sentence of the property (a connected bootstrap graph becomes a full mesh within a bounded number of exchange intervals, NAT traversal) - liveness over multi-node histories; it is searched on every run by the bounded stand-in native/mesh_formation.rs (2-5 nodes, reliable delivery, no NAT), labelled bounded. The call site in connect_to_peers (labelled loops, HashMap iteration) is outside Verus and searched by native/connect_peers.rs.',
+    'verus': [{'unit': 'selfid'},
               {'unit': 'peers', 'fns': ['GenericCloud::connect_sock', 'GenericCloud::adopt_own_addresses_block', 'canary_.*']},
               # the call site: in EVERY stage a message whose hash is the own one, or that the self-recognition test accepts, never
               # completes a handshake (InitState::handle_init, whole function)
@@ -464,10 +467,10 @@ PROPS['C14'] = {
         'files': {'src/crypto/init.rs': ['kani/initblocks.rs.in']},
         'harnesses': [K(IB, 'nonce_halves_are_opposite', 'the "Connected to self" test of handle_init fires whenever the received salted hash equals the own one (first disjunct; the second disjunct is InitState::check_salted_node_id_hash, proved in unit codec)', fns=['crypto::init::InitState::handle_init (block: self test)'])],
     },
-    'native_search': {r'codec::(InitState::check_salted_node_id_hash|salted_hash_block|theorem_node_recognises_itself)': SELF_DRV, r'initstage::.*': [STAGES_DRV, OWN_DRV], r'peers::GenericCloud::(connect_sock|adopt_own_addresses_block)': OWN_DRV},
+    'native_search': {r'selfid::.*': SELF_DRV, r'initstage::.*': [STAGES_DRV, OWN_DRV], r'peers::GenericCloud::(connect_sock|adopt_own_addresses_block)': OWN_DRV},
     'trusted': CODEC_TRUSTED + PEERS_TRUSTED + STAGES_TRUSTED + ['SHA-256 (ring::digest) as an uninterpreted function with 32-byte results; R5 pinned statements: `digest::digest(&digest::SHA256, &x)`, `rng.fill(&mut hash[0..4]).unwrap()`, the slice comparison in check_salted_node_id_hash'],
     'not_decided': [
-        'liveness: full mesh from any connected bootstrap graph within a bounded number of peer-exchange intervals, including NAT cases',
+        'liveness (first sentence of the property): full mesh from any connected bootstrap graph within a bounded number of peer-exchange intervals - a multi-node history property no per-function contract decides; searched on every run by the BOUNDED stand-in native/mesh_formation.rs (trees / chains / stars / a ring on 2-5 nodes, three orientations, three crypto settings, reliable delivery, 1000 s); NAT cases are not covered',
         'that connect_to_peers skips the entry after adopting its addresses (`continue \'outer`): reading',
         'own-address learning through other paths (reset_own_addresses, port forwarding)',
     ],
@@ -500,11 +503,13 @@ for _pid, _P in PROPS.items():
 # HashMap iteration, labelled loops, ring objects) are searched by these drivers on every run; they are reported as `bounded` obligations
 # (`native::<driver>`), never as proved. Each driver counts only the failures tagged with the property it runs for.
 CONNECT_DRV = {'file': 'native/connect_peers.rs', 'attach': 'src/cloud.rs', 'test': 'peer_lists_lead_to_the_right_dials'}
+TRUST_DRV = {'file': 'native/trust_matrix.rs', 'attach': 'src/tests/common.rs', 'test': 'nodes_peer_exactly_when_each_trusts_the_other'}
+MESH_DRV = {'file': 'native/mesh_formation.rs', 'attach': 'src/tests/common.rs', 'test': 'connected_bootstrap_graphs_become_full_meshes'}
 LAYOUT_DRV = {'file': 'native/beacon_layout.rs', 'attach': 'src/beacon.rs', 'test': 'beacons_are_recovered_exactly'}
 MARKERS_DRV = {'file': 'native/beacon_markers.rs', 'attach': 'src/beacon.rs', 'test': 'marker_search_never_panics'}
 _QUICK = {
-    'C01': [STAGES_DRV], 'C02': [ISO_DRV], 'C04': [NONCE_DRV], 'C06': [NEG_DRV], 'C08': [STAGES_DRV], 'C10': [ISO_DRV, CONNECT_DRV], 'C11': [ISO_DRV],
-    'C12': [NODE_PEERS_DRV], 'C13': [ISO_DRV, NODE_PEERS_DRV], 'C14': [OWN_DRV, CONNECT_DRV, STAGES_DRV], 'C15': [NODE_PEERS_DRV], 'C17': [LAYOUT_DRV, MARKERS_DRV],
+    'C01': [STAGES_DRV, TRUST_DRV], 'C02': [ISO_DRV], 'C04': [NONCE_DRV], 'C06': [NEG_DRV], 'C08': [STAGES_DRV], 'C10': [ISO_DRV, CONNECT_DRV], 'C11': [ISO_DRV],
+    'C12': [NODE_PEERS_DRV], 'C13': [ISO_DRV, NODE_PEERS_DRV], 'C14': [OWN_DRV, CONNECT_DRV, MESH_DRV, STAGES_DRV], 'C15': [NODE_PEERS_DRV], 'C17': [LAYOUT_DRV, MARKERS_DRV], 'C18': [KEYS_DRV],
     'C20': [{'file': 'native/config_merge.rs', 'attach': 'src/config.rs', 'test': 'sources_combine_as_documented'}],
 }
 for _pid, _l in _QUICK.items():
